@@ -49,6 +49,9 @@ type Op struct {
 	// Wrap > 0: the element at that position is handed over inside an application-defined type that
 	// embeds the library's element (a legitimate implementation of the public interface)
 	Wrap int `json:"wrap,omitempty"`
+	// AddID != 0 (data sets): the template id handed to the add call differs from the id the set was
+	// prepared with. A data record does not carry its template id; the set's header names the set.
+	AddID uint16 `json:"add_id,omitempty"`
 }
 
 // wrapped is an application-side implementation of entities.InfoElementWithValue: it embeds the
@@ -125,6 +128,9 @@ func badElement(kind string) entities.InfoElementWithValue {
 
 func add(set entities.Set, o Op, tpl bool, id uint16, path int) error {
 	els := elements(o, tpl)
+	if o.AddID != 0 && !tpl {
+		id = o.AddID
+	}
 	if o.Bad != "" && !tpl {
 		p := o.BadPos % (len(els) + 1)
 		els = append(els[:p:p], append([]entities.InfoElementWithValue{badElement(o.Bad)}, els[p:]...)...)
@@ -221,7 +227,18 @@ func play(c Case, forcePath int, st *Stats) ([]byte, *ev.Failure) {
 				// not comparable with the reference encoding: take the record as serialized now; it must
 				// stay that way, and be the same through every add path and in a fresh set
 				recs := set.GetRecords()
-				m.recs = append(m.recs, append([]byte(nil), recs[len(recs)-1].GetBuffer()...))
+				got := append([]byte(nil), recs[len(recs)-1].GetBuffer()...)
+				if o.Foreign > 0 && o.FixedStr == 0 {
+					// the element without encoder reports 8 bytes; whatever they hold, every other field
+					// sits where the reported lengths put it
+					p := (o.Foreign - 1) % (len(o.Fields) + 1)
+					want := ref.EncodeDataRecord(nil, o.Fields, o.Vals)
+					off := len(ref.EncodeDataRecord(nil, o.Fields[:p], o.Vals[:p]))
+					if len(got) != len(want)+8 || !bytes.Equal(got[:off], want[:off]) || !bytes.Equal(got[off+8:], want[off:]) {
+						return nil, ev.Failf("op %d add (path %d): a record with an 8-byte element of a type the library cannot encode at position %d: the other %d fields are not where the reported lengths put them (record of %d bytes, %d expected; fields before it intact: %v)", i, path, p, len(o.Fields), len(got), len(want)+8, len(got) >= off && bytes.Equal(got[:off], want[:off]))
+					}
+				}
+				m.recs = append(m.recs, got)
 			} else {
 				m.recs = append(m.recs, ref.EncodeDataRecord(nil, o.Fields, o.Vals))
 			}
@@ -400,6 +417,9 @@ func genCase(t *rapid.T) Case {
 				}
 				if rapid.IntRange(0, 11).Draw(t, "foreign") == 0 {
 					o.Foreign = rapid.IntRange(1, 13).Draw(t, "foreignpos")
+				}
+				if rapid.IntRange(0, 5).Draw(t, "add_id") == 0 {
+					o.AddID = rapid.SampledFrom([]uint16{256, 300, 999, 65535, 2, 3}).Draw(t, "add_id_v")
 				}
 				if rapid.IntRange(0, 7).Draw(t, "bad") == 0 {
 					o.Bad = rapid.SampledFrom([]string{"v6_in_ipv4", "mac5", "fixed_short"}).Draw(t, "badkind")
